@@ -5,6 +5,7 @@
    pool is EXACTLY the sub-list of transactions still valid at the new head. *)
 From Coq Require Import NArith List.
 From SkV Require Import NodeModel NodeProofs.
+From SkV Require Bytes Codec Ledger Validate PoolLink.
 Import ListNotations.
 
 Theorem C13_invariant_step : forall skip tx_valid_at tx_conflict,
@@ -39,6 +40,16 @@ Theorem C13_tx_relayed_only_on_admission : forall tx_valid_at tx_conflict s t ok
   ~ In t (ns_pool s) /\ ns_pool s' = ns_pool s ++ [t] /\ o = [ORelayTx t].
 Proof. exact tx_relay_only_on_admission. Qed.
 
+(* the abstract pool instantiated with concrete transactions (validity = in-state validation against the head's unspent set,
+   conflict = shared reference): the invariant is preserved by every step, and it yields exactly the pool premises of the
+   block-assembly theorem C12_assembly_valid *)
+Theorem C13_invariant_step_concrete : forall skip verify tx_of utxo_at s e s' o,
+  PoolInv (PoolLink.valid_at_real verify tx_of utxo_at) (PoolLink.conflict_real tx_of) s ->
+  step skip (PoolLink.valid_at_real verify tx_of utxo_at) (PoolLink.conflict_real tx_of) s e = (s', o) ->
+  PoolInv (PoolLink.valid_at_real verify tx_of utxo_at) (PoolLink.conflict_real tx_of) s'.
+Proof. exact PoolLink.pool_inv_step_real. Qed.
+
+Print Assumptions C13_invariant_step_concrete.
 Print Assumptions C13_invariant_step.
 Print Assumptions C13_invariant_run.
 Print Assumptions C13_admission.
